@@ -1,6 +1,7 @@
 CONSTANTS
   Depth = 4
   MaxOpNs = {0, 3}
+  NoNoops = TRUE
   Families = {"bit", "time", "clear", "value", "keyed", "roaring", "import", "importkeyed", "importvalue", "rowop"}
 INIT Init
 NEXT Next
